@@ -55,8 +55,9 @@ Variant(v) == CHOOSE x \in Variants : x.v = v
 Chains   == {"comdex-1", "comdex-test3", "other"}
 MainTest == {"comdex-1", "comdex-test3"}
 (* senders: d0 / d1 = the two designated contracts of the chain (of comdex-1 when the chain is "other"),
-   o0 / o1 = the designated contracts of the OTHER public network, x = an unrelated contract *)
-Senders == {"d0", "d1", "o0", "o1", "x"}
+   o0 / o1 = the designated contracts of the OTHER public network, x = an unrelated contract,
+   admin = a configured admin address (esm Params.Admin) *)
+Senders == {"d0", "d1", "o0", "o1", "x", "admin"}
 Designated(cls) == IF cls = "governance" THEN "d0" ELSE "d1"
 
 (* property, statement-literal: on the main and test networks a privileged message is accepted only from a
@@ -64,8 +65,8 @@ Designated(cls) == IF cls = "governance" THEN "d0" ELSE "d1"
 PrivilegedOnlyDesignated(chain, sender, ok) == chain \in MainTest /\ ok => sender \in {"d0", "d1"}
 (* ... namely from the contract designated for that class of operation ... *)
 PrivilegedRole(v, chain, sender, ok) == chain \in MainTest /\ ok => sender = Designated(Variant(v).cls)
-(* ... and elsewhere only from configured admin addresses (no sender of the matrix is one) *)
-PrivilegedElsewhere(chain, sender, ok) == chain \notin MainTest => ~ok
+(* ... and elsewhere only from configured admin addresses *)
+PrivilegedElsewhere(chain, sender, ok) == chain \notin MainTest /\ ok => sender = "admin"
 
 (* as coded: the guard exists only for the two known chain ids (fail-open elsewhere — named deviation) *)
 ImplPrivOk(v, chain, sender) == chain \notin MainTest \/ sender = (IF Variant(v).idx = 0 THEN "d0" ELSE "d1")
